@@ -1,26 +1,20 @@
 # Property definitions: which contracts, which front-ends, which assumptions.
 from .props import *
 
-def run_C19(rep, spec, pf, verbose=False, only=None):
-    cs = contracts_for(spec, 'C19')
-    if only: cs = [c for c in cs if only in c.key]
-    obls = run_go_functions(rep, spec, cs, verbose=verbose)
-    return finish(rep, obls, pf, 'contracts on the real Go AST; WP by forward symbolic execution; z3/cvc5')
+TECH = 'contracts on the real source; VCs by weakest preconditions (forward symbolic execution) over the typed Go AST / ESTree; z3 + cvc5 portfolio'
 
-def run_C16(rep, spec, pf, verbose=False, only=None):
-    cs = contracts_for(spec, 'C16')
+def run_generic(pid, rep, spec, pf, verbose=False, only=None):
+    obls = []
+    cs = contracts_for(spec, pid)
     if only: cs = [c for c in cs if only in c.key]
-    obls = run_go_functions(rep, spec, cs, verbose=verbose)
-    return finish(rep, obls, pf, 'contracts on the real Go AST; WP by forward symbolic execution; z3/cvc5')
+    if cs:
+        obls += run_go_functions(rep, spec, cs, verbose=verbose)
+    extra = EXTRA.get(pid)
+    if extra:
+        obls += extra(rep, spec, verbose=verbose, only=only)
+    if not obls and not rep.undecided:
+        print('property %s: no obligations were generated (vacuous check)' % pid)
+        return 2
+    return finish(rep, obls, pf, TECH)
 
-def run_C18(rep, spec, pf, verbose=False, only=None):
-    cs = contracts_for(spec, 'C18')
-    if only: cs = [c for c in cs if only in c.key]
-    obls = run_go_functions(rep, spec, cs, verbose=verbose)
-    return finish(rep, obls, pf, 'contracts on the real Go AST; WP by forward symbolic execution; z3/cvc5')
-
-def run_C20(rep, spec, pf, verbose=False, only=None):
-    cs = contracts_for(spec, 'C20')
-    if only: cs = [c for c in cs if only in c.key]
-    obls = run_go_functions(rep, spec, cs, verbose=verbose)
-    return finish(rep, obls, pf, 'contracts on the real Go AST; WP by forward symbolic execution; z3/cvc5')
+EXTRA = {}
